@@ -37,3 +37,16 @@ Definition sixel_src100 (rows : list (list spx)) : list (list rgb) := map (map s
 
 Definition distinct100 (rows : list (list spx)) : N :=
   N.of_nat (length (nodup_rgb (concat (sixel_src100 rows)))).
+
+(* ---------- cropped views ---------- *)
+
+(* Image::crop(r0..r1, c0..c1): a window of the parent's pixel matrix (the parent's buffer
+   is shared, only the Shape changes; C07 proves that a Shape view is this window) *)
+Definition view_rows (parent : list (list spx)) (crop : option (nat * nat * nat * nat))
+  : list (list spx) :=
+  match crop with
+  | None => parent
+  | Some (r0, r1, c0, c1) =>
+      map (fun r => firstn (c1 - c0) (skipn c0 r)) (firstn (r1 - r0) (skipn r0 parent))
+  end.
+
